@@ -22,7 +22,7 @@ Definition gen_action_eq : list string := ["if not isinstance(other, Action):
     return NotImplemented"; "return self.action_type == other.action_type and self.parameters == other.parameters"].
 Definition gen_action_hash : list string := ["sorted_params = tuple(sorted(((k, hash(v)) for k, v in self.parameters.items())))"; "return hash((self.action_type, sorted_params))"].
 Definition gen_atype_from_string : list string := ["if name.startswith('ActionType.'):
-    name = name.split('ActionType.')[1]"; "try:
+    name = name[len('ActionType.'):]"; "try:
     return cls[name]
 except KeyError:
     raise ValueError(f'Invalid ActionType: {name}')"].
